@@ -1,5 +1,5 @@
 (* C03 correspondence and validators. *)
-From Apko Require Export Base.Prelude Base.Regex Spec.VersionSpec Model.Version Model.VersionFilter
+From Apko Require Export Base.Prelude Base.Regex Spec.VersionSpec Model.Version Model.VersionFilter Model.VersionFilterPins
   Generated.Regexes Generated.VersionConsts Generated.C03Version.
 Open Scope string_scope. Open Scope list_scope. Open Scope Z_scope.
 
@@ -205,3 +205,48 @@ Definition check_so (c : so_case) : list string :=
                | Some v => match satisfied_by cons v with Some true => 1 | Some false => 0 | None => 2 end
                end in
    tag_if (negb (want =? so_obs c)) "mismatch:soname-satisfied-by").
+
+(* ---- filterPackages over a candidate list with the dq map, the pins and the installed package (hook VerifFilterList) ----
+   fl_cands: the candidates as handed over (fc_id = position; fc_url = what RepositoryPackage.URL() returned);
+   fl_obs: positions of the candidates that came back, in the order they came back.
+   Judged in C03's terms: whoever passes, passes by a version the order accepts (pins and dq only remove); a candidate that is
+   neither disqualified nor pinned passes exactly when the order says so; nothing disqualified passes; input order is kept. *)
+Record fltl_case := { fl_name : string; fl_op : string; fl_cver : string;
+                      fl_allow : string; fl_prefer : string; fl_installed : option string;
+                      fl_cands : list fcand; fl_obs : list N; fl_clean : bool }.
+
+Definition spec_want (op cver : string) (k : fcand) : option bool :=
+  if String.eqb op "" then Some true
+  else match spec_parse (fc_ver k), spec_parse cver with
+       | Some a, Some r =>
+           if fits_int64 a && fits_int64 r && forallb (fun p => match spec_parse (c_version (resolve_constraint p)) with
+                                                                | Some b => fits_int64 b | None => true end) (fc_provs k)
+           then Some (spec_sat (vop_of_string op) a r || existsb (spec_prov_ok (vop_of_string op) r) (fc_provs k))
+           else None
+       | _, _ => None
+       end.
+
+Fixpoint increasing (l : list N) : bool :=
+  match l with
+  | a :: ((b :: _) as t) => (a <? b)%N && increasing t
+  | _ => true
+  end.
+
+Definition check_filter_list (c : fltl_case) : list string :=
+  let m := resolve_constraint (String.append (fl_name c) (String.append (fl_op c) (fl_cver c))) in
+  let o := {| fp_allow := fl_allow c; fp_prefer := fl_prefer c; fp_installed := fl_installed c |} in
+  let passed k := existsb (fun i => (i =? fc_id k)%N) (fl_obs c) in
+  (if fl_clean c then
+     List.concat (List.map (fun k =>
+       match spec_want (fl_op c) (fl_cver c) k with
+       | Some want =>
+           tag_if (passed k && negb want) "viol:resolver-filter-accepts-against-apk-order" ++
+           tag_if (negb (passed k) && want && negb (fc_dq k) && String.eqb (fc_pinned k) "")
+             "viol:resolver-filter-rejects-against-apk-order"
+       | None => []
+       end) (fl_cands c))
+   else []) ++
+  tag_if (existsb (fun k => passed k && fc_dq k) (fl_cands c)) "viol:resolver-filter-passes-disqualified" ++
+  tag_if (negb (increasing (fl_obs c))) "viol:resolver-filter-reorders-candidates" ++
+  (* model vs implementation *)
+  tag_if (negb (list_eqb N.eqb (List.map fc_id (filter_list m o (fl_cands c))) (fl_obs c))) "mismatch:filter-packages-list".
